@@ -631,6 +631,24 @@ func runIngress(prop string, r *common.Rand, tier string, o *common.Out, replay 
 		ingOverlap(o, "replay", strings.TrimPrefix(replay, "overlap|"))
 		return
 	}
+	if strings.HasPrefix(replay, "qpool|") {
+		runSrv("C15", r, tier, o, replay)
+		return
+	}
+	if replay == "" && prop == "C15" {
+		// a request the connection loop refuses, read while admitted requests of the same connection are still waiting in
+		// the worker pool: when the pool gets to them, handlers run for the admitted ones, with their own arguments
+		k := 0
+		for _, order := range [][]int{{0, 1, 2}, {2, 1, 0}, {0, 2, 1}} {
+			for _, ow := range []bool{false, true} {
+				k++
+				reqs := []sreqCase{{seq: 1, style: "method", ser: 1, a: 3, b: 4, mode: "ok"},
+					{seq: 2, style: "func", ser: 1, a: 9, b: 9, mode: "limit", ow: ow},
+					{seq: 3, style: "pooled", ser: 1, a: 5, b: 6, mode: "ok"}}
+				srvQueuedPool(o, fmt.Sprintf("qp%d", k), reqs, order, true)
+			}
+		}
+	}
 	if replay == "" && prop == "C19" {
 		for i, ing := range []string{"gateway", "native", "gateway"} {
 			ingOverlap(o, fmt.Sprintf("ov%d", i), ing)
